@@ -1847,7 +1847,7 @@ def i_new_of_result(e, st, a, i):
 
 
 def i_param(e, st, a, i):
-    return e.params[a[0].decode()]
+    return e.params.get(a[0].decode(), 0)      # a parameter the check does not set is 0 (as in the native face)
 
 
 def i_json_marshal(e, st, a, i):
